@@ -20,6 +20,7 @@ ASSUMPTIONS = [
     "event scheme table and field positions from IEC 62386-103 Table 3; push-button codes from -301 Table 2; occupancy flag bits from -303 (upper six bits must be zero); light = 10-bit number (-304)",
     "instance types without an implementing class decode to UnknownEvent carrying type and data",
 ]
+CHAIN_STRIDE = {'quick': 10, 'thorough': 25}      # every k-th shard is re-run in chains inside one process (non-initial process states)
 BOUNDS = {"quick": "40 address-field values x all 2^16 lower halves without map; dev/inst: 6 shorts x 6 instance numbers x 1024 data x 34 map kinds x 4 construction forms (sampled forms on full data)",
           "thorough": "all 2^23 event frames without map; all 2^21 dev/inst frames x 6 types + no-entry + other-instance; all 32 types on a 2^16 slice; all construction forms"}
 
